@@ -214,8 +214,11 @@ func cmdCheck(args []string) (code int) {
 			code = 2
 		}
 	}()
-	p := LoadProg(repoRoot(), nil)
+	p := LoadProg(repoRoot(), normaliseOverlay(repoRoot()))
 	c := &Check{Prop: id, Tier: *tier, p: p, eff: NewEffects(p), extra: map[string]any{}}
+	for _, n := range normaliseNotes {
+		c.Note("normalisation: %s", n)
+	}
 	c.checkDevModeFold()
 	p.AlwaysCut = []LitPat{p.emulateTrue()}
 	pi.Run(c)
